@@ -572,11 +572,24 @@ pub fn run(tier: Tier) -> RunOutcome {
         st.time_limit = ops[0].time_limit;
         st.max_iter = ops[0].max_iter;
         if let Ok(mut sv) = sv_new(5, &prob, st) {
+            // variant 0: stream, then buffer; variant 1: buffer, then the buffer re-armed
+            // (print_to_buffer() again starts an empty buffer)
+            let variant = choose("switch_variant", 2);
             let id = with_sim(|s| s.new_sink(plan.clone()));
-            sv.print_to_stream(Box::new(SimWriter { id }));
+            if variant == 0 {
+                sv.print_to_stream(Box::new(SimWriter { id }));
+            } else {
+                sv.print_to_buffer();
+            }
+            let mut first_part: Vec<u8> = vec![];
             let mut ok = true;
             for (k, op) in ops.iter().enumerate() {
                 if k == 1 {
+                    first_part = if variant == 0 {
+                        with_sim(|s| s.sinks[id].accepted.clone())
+                    } else {
+                        sv.get_print_buffer().unwrap_or_default().into_bytes()
+                    };
                     sv.print_to_buffer();
                 }
                 if k > 0 {
@@ -596,13 +609,14 @@ pub fn run(tier: Tier) -> RunOutcome {
             }
             if ok {
                 probe("c20_target_switched_between_solves");
-                let mut joined = with_sim(|s| s.sinks[id].accepted.clone());
+                let mut joined = first_part;
                 joined.extend(sv.get_print_buffer().unwrap_or_default().as_bytes());
                 if joined != buf.as_bytes() {
                     out.violations.push(Violation::new(
                         "C20.target_switch_changes_bytes",
                         format!(
-                            "first solve to a stream, later solves to a buffer: {} bytes in total, {} when everything goes to one buffer",
+                            "first solve to a {}, later solves to a freshly armed buffer: {} bytes in total, {} when everything goes to one buffer",
+                            if variant == 0 { "stream" } else { "buffer" },
                             joined.len(),
                             buf.len()
                         ),
